@@ -279,24 +279,32 @@ def data_unit_table(tier, seed):
         n += 1
         if k not in SI_PREFIX or abs(v / 10.0 ** SI_PREFIX[k] - 1) > 1e-12:
             viol.append({'id': 'prefix-' + k, 'input': k, 'observed': v, 'expected': '1e%s' % SI_PREFIX.get(k)})
-    with contextlib.redirect_stdout(io.StringIO()):
-        for name in names:
-            if name not in SI:
+    cases = []
+    for name in names:
+        if name not in SI:
+            continue
+        for pre in [''] + list(prefixes):
+            full = pre + name
+            # documented resolution order: whole name, then 1-letter prefix, then 2-letter prefix
+            if full in names:
+                f, e = SI[full]
+            elif len(full) > 1 and full[1:] in names and full[:1] in prefixes:
+                f0, e = SI[full[1:]]
+                f = float(f0) * 10.0 ** SI_PREFIX[full[:1]]
+            elif len(full) > 2 and full[2:] in names and full[:2] in prefixes:
+                f0, e = SI[full[2:]]
+                f = float(f0) * 10.0 ** SI_PREFIX[full[:2]]
+            else:
                 continue
-            for pre in [''] + list(prefixes):
-                full = pre + name
+            cases.append((full, float(f), tuple(e), pre))
+    resolvable = set(c[0] for c in cases)
+    # the table is evaluated three times in ONE process, in declaration order, alphabetically and in reverse: what a name means must not
+    # depend on which names were looked up before (e.g. 'dam' after 'am')
+    from pgradd.Error import UnitsParseError
+    with contextlib.redirect_stdout(io.StringIO()):
+        for order_name, order in (('declaration order', cases), ('alphabetical', sorted(cases)), ('reverse alphabetical', sorted(cases, reverse=True))):
+            for full, f, e, pre in order:
                 n += 1
-                # documented resolution order: whole name, then 1-letter prefix, then 2-letter prefix
-                if full in names:
-                    f, e = SI[full]
-                elif len(full) > 1 and full[1:] in names and full[:1] in prefixes:
-                    f0, e = SI[full[1:]]
-                    f = float(f0) * 10.0 ** SI_PREFIX[full[:1]]
-                elif len(full) > 2 and full[2:] in names and full[:2] in prefixes:
-                    f0, e = SI[full[2:]]
-                    f = float(f0) * 10.0 ** SI_PREFIX[full[:2]]
-                else:
-                    continue
                 try:
                     q = eval_qty('1 ' + full)
                     got_v = q.value if isinstance(q, Quantity) else q
@@ -306,12 +314,27 @@ def data_unit_table(tier, seed):
                 ok = not isinstance(got_v, str) and got_e == tuple(e) and abs(got_v / float(f) - 1) <= REL
                 if len(samples) < 6 and pre in ('', 'k', 'da'):
                     samples.append({'unit': full, 'SI_value': got_v if not isinstance(got_v, str) else got_v, 'exponents': got_e})
-                if not ok:
-                    viol.append({'id': full, 'input': "eval_qty('1 %s')" % full, 'observed': [got_v, got_e],
+                if not ok and len(viol) < 40:
+                    viol.append({'id': '%s-%s' % (full, order_name.split()[0]), 'input': "eval_qty('1 %s')  [%s pass]" % (full, order_name), 'observed': [got_v, got_e],
                                  'expected': [float(f), list(e)],
                                  'script': "from pgradd.Units import eval_qty\nq = eval_qty('1 %s'); print(q.value, q.units.exps)  # expected %r %r\n" % (full, float(f), list(e))})
+            # stacked prefixes are not units, also after their parts have been used
+            for full in ('kkg', 'dacm', 'ukJ', 'mkm', 'kmm', 'MkJ', 'cdam', 'hhPa'):
+                if full in resolvable:
+                    continue
+                n += 1
+                try:
+                    eval_qty('1 ' + full)
+                    got = 'accepted'
+                except UnitsParseError:
+                    got = None
+                except Exception as ex:    # noqa
+                    got = 'raised %s' % type(ex).__name__
+                if got and len(viol) < 40:
+                    viol.append({'id': 'stacked-%s-%s' % (full, order_name.split()[0]), 'input': "eval_qty('1 %s')  [after the %s pass]" % (full, order_name), 'observed': got, 'expected': 'UnitsParseError',
+                                 'script': "from pgradd.Units import eval_qty\nfor u in ('kg', 'cm', 'kJ', 'km', 'mm', %r): print(u, eval_qty('1 ' + u))   # the last one: expected UnitsParseError\n" % full})
     return {'name': 'unit-table-vs-SI', 'obligations': n, 'violations': viol, 'samples': samples, 'exhaustive': True,
-            'bound': 'all %d unit names x (no prefix + %d prefixes)' % (len(names), len(prefixes))}
+            'bound': 'all %d unit names x (no prefix + %d prefixes), three passes in different orders in one process + stacked prefixes' % (len(names), len(prefixes))}
 
 
 DATA = [data_unit_table]
